@@ -22,6 +22,12 @@ Definition conc_verdict (k : conc_case) : nat * string :=
   let us := thread_runs k in
   if k_deadlock k then (1, "deadlock: every unfinished request waits for a lock another one holds") else
   if negb (existsb (coll_eqb (k_final k)) (k_seq k)) then (1, "a collection does not hold what the requests executed one after another put there") else
+  if String.eqb (k_kind k) "refused" then
+    (* deliveries of one activity id among the three requests: its side effects are attempted at most once *)
+    let ids := map (fun u => match r_body (u_req u) with BJson j => id_str j | BNotJson => "" end) us in
+    if Nat.ltb (length (nodup string_dec ids)) (count_ev (fun e => match e with EApp n _ => String.eqb n "FederatingCallbacks" | _ => false end) us)
+    then (1, "the side effects of one activity were attempted more than once") else (0, "")
+  else
   if String.eqb (k_kind k) "dup" then
     if Nat.ltb 1 (count_ev (fun e => match e with EApp n _ => String.eqb n "FederatingCallbacks" | _ => false end) us) then (1, "the side effects of one activity were attempted more than once") else
     if Nat.ltb 1 (fold_left (fun n u => n + length (filter (fun p => match fst p with EBatchDeliver _ _ => true | _ => false end) (after_exists (u_trace u)))) us 0) then (1, "one activity was forwarded more than once") else (0, "")
